@@ -108,6 +108,9 @@ def one_case(ctx, index: int, rng: random.Random):
     nmax = 120 if not big else 600
     n = rng.choice([0, 1, 2, 5, 30, nmax]) if rng.random() < 0.4 else rng.randint(2, nmax)
     specs = [_axis_spec(rng, ax, big) for ax in range(d)]
+    for sp_ in specs:
+        if hasattr(type(sp_[0]), "numpy_bins"):
+            gen.touch_binning(rng, sp_[0])  # e.g. edges read on an earlier histogram over the same binning object
     derived = any(s[1] is None for s in specs)
     if derived:
         n = max(n, 3)
